@@ -3,7 +3,7 @@ Model of the layout machinery: template.Render's dispatch (template_render.go), 
 (template_layout.go). The engine (rendering one file with the previous result as `content`) is a parameter `renderLink`;
 `layoutOf f` is what `Get("layout")` yields after `Load(f).Fill(data)` ("" when none); `exists` is Loader.Stat.
 -/
-import Vuego.Model.Val
+import Vuego.Model.Stack
 import Vuego.Generated.Consts
 namespace Vuego.Layout
 open Go Vuego
@@ -22,8 +22,20 @@ def dirOf (p : Str) : Str :=
   | [] => ['.']
   | d => d.reverse
 
-/-- `filepath.Join(dir, name)` for clean relative names -/
-def joinPath (dir name : Str) : Str := if dir == ['.'] then name else dir ++ '/' :: name
+/-- `filepath.Clean` for slash-separated relative names: empty and "." elements dropped, ".." cancels the element before it -/
+def cleanPath (p : Str) : Str :=
+  let parts := (splitChar '/' p).foldl (fun (acc : List Str) (e : Str) =>
+    if e == [] || e == ['.'] then acc
+    else if e == ['.', '.'] then (match acc.reverse with
+      | last :: before => if last == ['.', '.'] then acc ++ [e] else before.reverse
+      | [] => [e])
+    else acc ++ [e]) []
+  match parts with
+  | [] => ['.']
+  | x :: r => r.foldl (fun a e => a ++ '/' :: e) x
+
+/-- `filepath.Join(dir, name)` -/
+def joinPath (dir name : Str) : Str := cleanPath (dir ++ '/' :: name)
 
 /-- `resolveLayoutPath`: relative to the current file first (as written when it ends in .vuego, then with the extension added), else layouts/ -/
 def resolveLayoutPath {α : Type} (W : LWorld α) (layout cur : Str) : Str :=
@@ -47,5 +59,72 @@ def layoutLoop {α : Type} (W : LWorld α) : Nat → Str → Bool → Option α 
 def renderEntry {α : Type} (W : LWorld α) (page : Str) : Res α :=
   if W.layoutOf page != [] || W.fileExists sBase then layoutLoop W Generated.layoutFuel page true none
   else W.renderLink page none
+
+/-! ### the data handed along the chain (template.layout's `data` map)
+
+`data := t.stack.EnvMap()` of the page template — the auto-loaded config, the Fill/Assign layer and the page's own front-matter. Every
+link is `t.Load(file).Fill(data)`: it sees the config, overlaid with `data`, overlaid with ITS OWN front-matter (front-matter is
+authoritative, C08). After a link rendered, `data["content"]` is its output and `data["layout"]` is deleted; nothing else is ever written
+to `data`. Maps are association lists read by lookup; the first occurrence of a key wins. -/
+
+structure DWorld where
+  config : Scope                     -- theme.yml / data/*.yml (Vue.initialData)
+  fmOf : Str → Scope                 -- front-matter of a file ([] when it has none or cannot be loaded)
+  fileExists : Str → Bool            -- Loader.Stat
+  render : Str → Scope → Res Str     -- renderWithoutLayout(file) reading the given data
+
+def sContent : Str := "content".toList
+def sLayout : Str := "layout".toList
+
+/-- what a link reads: its own front-matter first, then the data handed along, then the config -/
+def visible (W : DWorld) (file : Str) (data : Scope) : Scope := W.fmOf file ++ data ++ W.config
+
+/-- `Template.Get`: the string form of a value, "" when missing or nil -/
+def getStr (m : Scope) (k : Str) : Str :=
+  match Scope.get m k with
+  | none => []
+  | some .nil => []
+  | some v => v.sprint
+
+/-- `data["content"] = html; delete(data, "layout")` -/
+def handOn (data : Scope) (html : Str) : Scope :=
+  (sContent, .str html) :: data.filter (fun kv => kv.1 != sLayout && kv.1 != sContent)
+
+/-- only the file-existence part is read by `resolveLayoutPath` -/
+def DWorld.paths (W : DWorld) : LWorld Str :=
+  { layoutOf := fun f => getStr (W.fmOf f) sLayout, fileExists := W.fileExists, renderLink := fun _ _ => .err "unused" [] }
+
+/-- the loop of `template.layout` with its data -/
+def dataLoop (W : DWorld) : Nat → Str → Bool → Scope → Res Str
+  | 0, _, _, _ => .err "layout-depth" "layout chain depth exceeded maximum".toList
+  | n + 1, file, first, data =>
+    match W.render file (visible W file data) with
+    | .ok html =>
+      if getStr (visible W file data) sLayout == [] then
+        if first then dataLoop W n sBase false (handOn data html) else .ok html
+      else dataLoop W n (resolveLayoutPath W.paths (getStr (visible W file data) sLayout) file) false (handOn data html)
+    | e => e
+
+/-- the links the loop renders, in order, each with the data it reads -/
+def dataTrace (W : DWorld) : Nat → Str → Bool → Scope → List (Str × Scope)
+  | 0, _, _, _ => []
+  | n + 1, file, first, data =>
+    (file, visible W file data) ::
+      (match W.render file (visible W file data) with
+       | .ok html =>
+         if getStr (visible W file data) sLayout == [] then
+           if first then dataTrace W n sBase false (handOn data html) else []
+         else dataTrace W n (resolveLayoutPath W.paths (getStr (visible W file data) sLayout) file) false (handOn data html)
+       | _ => [])
+
+/-- `template.Render` with data: `fill` is the Fill/Assign layer of the page template; its stack is `fm(page)` over `fill` over the config,
+    and `data := t.stack.EnvMap()` starts as exactly that -/
+def renderEntryD (W : DWorld) (page : Str) (fill : Scope) : Res Str :=
+  if getStr (visible W page fill) sLayout != [] || W.fileExists sBase then dataLoop W Generated.layoutFuel page true (visible W page fill)
+  else W.render page (visible W page fill)
+
+def traceEntryD (W : DWorld) (page : Str) (fill : Scope) : List (Str × Scope) :=
+  if getStr (visible W page fill) sLayout != [] || W.fileExists sBase then dataTrace W Generated.layoutFuel page true (visible W page fill)
+  else [(page, visible W page fill)]
 
 end Vuego.Layout
